@@ -560,11 +560,231 @@ class SearcherStringSearch(Contract):
         return out
 
 
+# ---- searcher construction -----------------------------------------------------------------------
+def searcher_init_inv(me, P, lst, i, pos, with_longest):
+    """Facts about a searcher built from the first i entries of the pattern list P (also the post, i = len(P))."""
+    n = lst.len
+    out = [
+        ('len-bound', And(n <= i, n >= 0)),
+        ('genuine', forall(0, n, lambda k: And(0 <= lst.get(k)[0], lst.get(k)[0] < i,
+                                               pat_is_text(P.get(lst.get(k)[0])),
+                                               eq(lst.get(k)[1], pat_val(P.get(lst.get(k)[0])))))),
+        ('ascending', forall(0, n, lambda j: forall(j + 1, n, lambda k: lst.get(j)[0] < lst.get(k)[0]))),
+        ('complete', forall(0, i, lambda j: Implies(pat_is_text(P.get(j)),
+                                                    And(0 <= select(pos, j), select(pos, j) < n,
+                                                        eq(lst.get(select(pos, j))[0], j))))),
+        ('eof-index', And(-1 <= me.eof_index, me.eof_index < i,
+                          Implies(me.eof_index >= 0, pat_is_eof(P.get(smax(me.eof_index, 0)))))),
+        ('eof-listed-is-found', forall(0, i, lambda j: Implies(pat_is_eof(P.get(j)), me.eof_index >= 0))),
+        ('timeout-index', And(-1 <= me.timeout_index, me.timeout_index < i,
+                              Implies(me.timeout_index >= 0, pat_is_timeout(P.get(smax(me.timeout_index, 0)))))),
+        ('timeout-listed-is-found', forall(0, i, lambda j: Implies(pat_is_timeout(P.get(j)), me.timeout_index >= 0))),
+    ]
+    if with_longest:
+        out += [('longest', And(me.longest_string >= 0,)),
+                ('longest-bounds-all', forall(0, n, lambda k: length(lst.get(k)[1]) <= me.longest_string))]
+    return out
+
+
+class SearcherInitInv(LoopSpec):
+    field = '_strings'
+    with_longest = True
+
+    def elem_type(self, v):
+        return TStr(v.old.self._kind)
+
+    def vars(self, v):
+        return {'n': T.Int, 's': TPat(self.elem_type(v))}
+
+    ghost = {'pos': TArray(T.Int)}
+
+    def modifies(self, v):
+        me = v.l.self
+        m = [(me, 'eof_index', T.Int), (me, 'timeout_index', T.Int),
+             (me, self.field, TSymList((('idx', T.Int), ('s', self.elem_type(v)))))]
+        if self.with_longest:
+            m.append((me, 'longest_string', T.Int))
+        return m
+
+    def invariant(self, v):
+        me = v.l.self
+        return searcher_init_inv(me, v.old_param(v), getattr(me, self.field), v.l._i0, v.g['pos'], self.with_longest)
+
+    def ghost_step(self, head, end):
+        end.g['pos'] = store(head.g['pos'], head.l._i0, getattr(end.l.self, self.field).len - 1)
+
+
+class SearcherStringInit(Contract):
+    name = SS + '.__init__'
+    props = ('C02', 'C03', 'C04')
+    field = '_strings'
+    with_longest = True
+    param = 'strings'
+
+    def __init__(self):
+        inv = SearcherInitInv()
+        inv.field, inv.with_longest = self.field, self.with_longest
+        param = self.param
+        inv_invariant = inv.invariant
+
+        def invariant(v):
+            v.old_param = lambda vv: getattr(vv.old, param)
+            return inv_invariant(v)
+        inv.invariant = invariant
+        inv.elem_type = self.elem_type
+        self.loops = {0: inv}
+
+    def elem_type(self, v):
+        return TStr(v.old.self._kind)
+
+    def shape(self, b):
+        kind = b.choice('mode', ['b', 's'])
+        me = b.obj('self', self.name.rsplit('.', 1)[0], closed=True, _kind=b.const(kind))
+        b.ghost('pos', b.ctx.fresh(TArray(T.Int), 'pos0') if hasattr(b, 'ctx') else __import__('pyvc.spec', fromlist=['x']).ConcArray(0))
+        et = TStr(kind) if self.with_longest else TRegex(kind)
+        return {'self': me, self.param: b.symlist(self.param, [('p', TPat(et))], scalar=True)}
+
+    def modifies(self, v, out):
+        me = v.old.self
+        et = self.elem_type(v)
+        m = [(me, 'eof_index', T.Int), (me, 'timeout_index', T.Int),
+             (me, self.field, TSymList((('idx', T.Int), ('s', et))))]
+        if self.with_longest:
+            m.append((me, 'longest_string', T.Int))
+        return m
+
+    def effects(self, v):
+        v.pos = v.draw(TArray(T.Int), 'pos')
+
+    def ensures(self, v):
+        me = v.new.self
+        P = getattr(v.old, self.param)
+        pos = getattr(v, 'pos', None)
+        if pos is None:
+            pos = v.g['pos']
+        return searcher_init_inv(me, P, getattr(me, self.field), P.len, pos, self.with_longest)
+
+
+SR = 'pexpect.expect.searcher_re'
+
+
+class SearcherReInit(SearcherStringInit):
+    name = SR + '.__init__'
+    field = '_searches'
+    with_longest = False
+    param = 'patterns'
+
+    def elem_type(self, v):
+        return T.Any
+
+
+class SearcherReSearchInv(LoopSpec):
+    vars = {'first_match': TOpt(T.Int), 'best_index': T.Int, 'the_match': T.Any, 'n': T.Int, 'match': TOpt(T.Any),
+            'index': T.Int, 's': T.Any}
+    ghost = {'bk': T.Int}
+
+    def invariant(self, v):
+        lst = v.old.self._searches
+        i = v.l._i0
+        fm = v.l.first_match
+        ss = v.l.searchstart
+        buf = v.old.buffer
+        F = lambda k: re_find(lst.get(k)[1], buf, ss)
+        if fm is None:
+            return [('none-so-far', forall(0, i, lambda k: eq(F(k), -1)))]
+        none = is_none(fm)
+        fmv = some(fm)
+        bk = v.g['bk']
+        return [
+            ('none-so-far', forall(0, i, lambda k: Implies(none, eq(F(k), -1)))),
+            ('witness', Implies(Not(none), And(0 <= bk, bk < i, eq(lst.get(bk)[0], v.l.best_index),
+                                               eq(v.l.the_match, re_match_of(lst.get(bk)[1], buf, ss)),
+                                               eq(F(bk), fmv), fmv >= 0))),
+            ('leftmost', forall(0, i, lambda k: Implies(And(Not(none), F(k) >= 0), fmv <= F(k)))),
+            ('first-listed-on-tie', forall(0, i, lambda k: Implies(And(Not(none), eq(F(k), fmv)), bk <= k))),
+        ]
+
+    def ghost_step(self, head, end):
+        fm = head.l.first_match
+        m = end.l.match
+        found = Not(is_none(m)) if isinstance(m, Opt) else (m is not None)
+        if found is False:
+            end.g['bk'] = head.g['bk']
+            return
+        n = end.l.n if end.l.has('n') else 0
+        upd = And(found, Or(is_none(fm), n < some(fm)))
+        end.g['bk'] = ite(upd, head.l._i0, head.g['bk'])
+
+
+class SearcherReSearch(Contract):
+    name = SR + '.search'
+    props = ('C02',)
+    loops = {0: SearcherReSearchInv()}
+
+    def shape(self, b):
+        kind = b.choice('mode', ['b', 's'])
+        me = b.obj('self', SR, closed=True, eof_index=b.int('eof_index'), timeout_index=b.int('timeout_index'),
+                   _searches=b.symlist('_searches', [('idx', T.Int), ('s', TRegex(kind))]), _kind=b.const(kind),
+                   start=b.any('start0'), end=b.any('end0'), match=b.any('match0'))
+        b.ghost('bk', 0)
+        return dict(self=me, buffer=b.str('buffer', kind), freshlen=b.int('freshlen'),
+                    searchwindowsize=b.opt('W', lambda: b.int('W')))
+
+    def requires(self, v):
+        return ascending(v.a.self._searches)
+
+    def outcomes(self, v):
+        return [Ret(T.Int, 'hit'), Ret(T.Int, 'miss')]
+
+    def modifies(self, v, out):
+        if out.label == 'miss':
+            return []
+        se = v.old.self
+        return [(se, 'start', T.Int), (se, 'end', T.Int), (se, 'match', T.Any)]
+
+    def effects(self, v):
+        v.bk = v.draw(T.Int, 'bk')
+
+    def ensures(self, v):
+        me, new = v.old.self, v.new.self
+        lst = me._searches
+        buf = v.old.buffer
+        W = v.old.searchwindowsize
+        ss = 0 if W is None else smax(0, length(buf) - W)
+        F = lambda k: re_find(lst.get(k)[1], buf, ss)
+        n = lst.len
+        bk = getattr(v, 'bk', None)
+        if bk is None:
+            bk = v.g['bk']
+        miss_f = eq(v.result, -1)
+        out = [('miss.none-found', forall(0, n, lambda k: Implies(miss_f, eq(F(k), -1)))),
+               ('miss.frame', Implies(miss_f, And(same(new.start, me.start), same(new.end, me.end), same(new.match, me.match))))]
+        if is_sym(miss_f) or not miss_f:
+            st, en, m = new.start, new.end, new.match
+            hitc = Not(miss_f)
+            ok_types = (is_sym(st) and str(st.sort()) == 'Int') or (isinstance(st, int) and not isinstance(st, bool))
+            if not ok_types:
+                out.append(('hit.sets-span', Implies(hitc, False)))
+                return out
+            out += [
+                ('hit.witness', Implies(hitc, And(0 <= bk, bk < n, eq(v.result, lst.get(bk)[0]), eq(st, F(bk)), st >= 0,
+                                                   same_match(m, re_match_of(lst.get(bk)[1], buf, ss)),
+                                                   eq(st, re_match_start(m)), eq(en, re_match_end(m))))),
+                ('hit.leftmost', forall(0, n, lambda k: Implies(And(hitc, F(k) >= 0), st <= F(k)))),
+                ('hit.first-listed-on-tie', forall(0, n, lambda k: Implies(And(hitc, eq(F(k), st)), bk <= k))),
+                ('hit.refines-interface', Implies(hitc, And(v.result >= 0, 0 <= st, st <= en, en <= length(buf)))),
+            ]
+        return out
+
+
 def register(reg):
     reg.add_iface('iface:searcher', 'search', SearcherSearch)
     reg.add_iface('iface:searcher', '__str__', SearcherStr)
-    for c in (DoSearch, ExistingData, NewData, Eof, Timeout, Errored, ExpectLoop, SearcherStringSearch):
+    for c in (DoSearch, ExistingData, NewData, Eof, Timeout, Errored, ExpectLoop, SearcherStringSearch,
+              SearcherStringInit, SearcherReInit, SearcherReSearch):
         reg.add(c)
     reg.inline_ok.update({'pexpect.spawnbase.SpawnBase._get_buffer'})
+
+
 
 
